@@ -351,6 +351,50 @@ def chunk(seq, n):
     return [seq[i:i + k] for i in range(0, len(seq), k)] if k else []
 
 
+def apalache(run, module, cinit, init, inv, length, tag, timeout=900):
+    """run `apalache-mc check` on spec/<module>.tla (typed specification); returns "NoError" or "Error".
+    Anything else (tool missing, timeout, parse error) is an infrastructure failure, never a verdict."""
+    d = stage_spec(run)
+    out = run.path("apa-" + tag)
+    os.makedirs(out, exist_ok=True)
+    cmd = ["apalache-mc", "check", "--cinit=" + cinit, "--init=" + init, "--inv=" + inv, "--length=%d" % length,
+           "--out-dir=" + out, os.path.join(d, module + ".tla")]
+    e = dict(os.environ, JVM_ARGS="-Xmx2g -Djava.io.tmpdir=" + run.wd)
+    try:
+        p = subprocess.run(cmd, cwd=out, env=e, capture_output=True, text=True, timeout=timeout)
+    except subprocess.TimeoutExpired:
+        raise Infra("apalache timed out on %s after %ds" % (tag, timeout))
+    except FileNotFoundError:
+        raise Infra("apalache-mc is not installed")
+    shutil.rmtree(out, ignore_errors=True)
+    m = re.search(r"The outcome is: (\w+)", p.stdout)
+    if not m or m.group(1) not in ("NoError", "Error"):
+        raise Infra("apalache gave no verdict on %s:\n%s" % (tag, (p.stdout + p.stderr)[-1500:]))
+    return m.group(1)
+
+
+def inductive(run, module, cinits, legacy_cinit, nonvacuity_inv, mc_info):
+    """IndInv of a typed specification is an inductive invariant (for every constant initialiser), the counter-model
+    is not, and IndInit is satisfiable; all runs side by side"""
+    jobs = []
+    for ci in cinits:
+        jobs.append((ci, "Init", "IndInv", 0, "NoError", "%s: Init => IndInv" % ci))
+        jobs.append((ci, "IndInit", "IndInv", 1, "NoError", "%s: IndInv /\\ Next => IndInv'" % ci))
+    jobs.append((legacy_cinit, "IndInit", "IndInv", 1, "Error", "%s (counter-model): IndInv is NOT inductive" % legacy_cinit))
+    jobs.append((cinits[0], "IndInit", nonvacuity_inv, 0, "Error", "IndInit is satisfiable (%s is violated)" % nonvacuity_inv))
+
+    def one(j):
+        ci, init, inv, length, want, what = j
+        got = apalache(run, module, ci, init, inv, length, "%s-%s-%s-%d" % (ci, init, inv, length))
+        return what, want, got
+
+    with cf.ThreadPoolExecutor(max_workers=4) as ex:
+        for what, want, got in ex.map(one, jobs):
+            if got != want:
+                raise Infra("design check failed: apalache on %s: %s - expected %s, got %s (independent of /repo)" % (module, what, want, got))
+            mc_info.append({"config": module, "tool": "apalache 0.58 (symbolic, unbounded in the number of steps)", "shown": what})
+
+
 # ---------------------------------------------------------------- generic family pipeline
 
 def simple_family(run, fam, replay=None):
@@ -381,6 +425,8 @@ def simple_family(run, fam, replay=None):
             if not r.violated:
                 raise Infra("vacuity: counter-model %s (%s) was NOT refuted by TLC" % (tag, what))
             mc_info.append({"config": tag, "counter_model": what, "refuted_by": r.violated, "states": r.distinct})
+        if fam.get("inductive"):
+            inductive(run, *fam["inductive"][run.tier], mc_info)
         plans = fam["plans"](cases, run)
     else:
         plans = fam["replay_plan"](replay, run)
